@@ -93,7 +93,13 @@ func genInstance(t *rapid.T, s *LSchema, maxOcc int) []byte {
 				}
 				b = refwire.AppendLen(refwire.AppendKey(nil, f.Num, 2), p)
 			case "nested":
-				b = refwire.AppendLen(refwire.AppendKey(nil, f.Num, 2), genInstance(t, f.Sub, maxOcc))
+				sub := genInstance(t, f.Sub, maxOcc)
+				if rapid.IntRange(0, 11).Draw(t, "badsub") == 0 {
+					// an element that is not itself a well-formed message (the outer message still is): the outer
+					// Decode succeeds, descending into this element fails - and must leave nothing behind
+					sub = append(append([]byte{}, sub...), rapid.SampledFrom([][]byte{{0x08}, {0x0a, 0x7f}, {0x80}, {0x0d, 0x01}}).Draw(t, "badtail")...)
+				}
+				b = refwire.AppendLen(refwire.AppendKey(nil, f.Num, 2), sub)
 			}
 			pieces = append(pieces, b)
 		}
@@ -383,7 +389,7 @@ func genPCase(t *rapid.T) *PCase {
 	return c
 }
 
-const ruleC14 = "case = options {safe, fast} x WithMaxBufferSize {unset, 0, 1, 2, 1024} x buffer filter {none, halving, to-zero, negative} + one definition (schema with 1..5 numbers, nested to depth 2) + a pool of 2..6 inputs of differing shapes (each number 0..5 occurrences, nested counts above and below the buffer limit) + a program of <= 40 ops {Decode(i), accessor query incl. NestedResult(s) paths, Range, Close} on one Decoder; " +
+const ruleC14 = "case = options {safe, fast} x WithMaxBufferSize {unset, 0, 1, 2, 1024} x buffer filter {none, halving, to-zero, negative} + one definition (schema with 1..5 numbers, nested to depth 2) + a pool of 2..6 inputs of differing shapes (each number 0..5 occurrences, nested counts above and below the buffer limit, 1 in 12 nested elements not itself a well-formed message) + a program of <= 40 ops {Decode(i), accessor query incl. NestedResult(s) paths, Range, Close} on one Decoder; " +
 	"model: every live handle remembers its input; each accessor must equal the reference parse of THAT input; in safe mode every slice/string handed out is re-read after every later step (incl. after Close and after the decoder re-used the pooled object) and must be unchanged; no op panics; finally everything is closed, every input decoded again and the hand-outs re-checked; " +
 	"non-trivial = a program in which a recycled result (same pointer as an earlier closed one) is read; distinct by case content"
 
